@@ -1,6 +1,7 @@
 (** C07 — pinned statements (client packet ids, inflight window, collisions).  Only [Theorem .. exact ..]. *)
 From Rumqtt Require Import Client.Run4 Client.Inv4 Client.Wire4 Client.Findings4 Client.Loop Client.LoopProofs Client.Flow4 Client.State5 Client.Inv5 Client.LoopInv.
 From Rumqtt Require Import Client.Eff5 Client.Flow5 Client.Wire5.
+From Rumqtt Require Client.State5Orig Client.Findings5.
 
 Theorem c07_inv : forall max manual h, 1 <= max -> max <= 65535 -> contract (init max manual) h = true ->
   exists s, run (init max manual) h = Some s /\ Inv s.
@@ -141,15 +142,26 @@ Theorem c07_negotiated_needs_connack_clause_v5 :
   nth 3 (trace5 (init5 3 false) h) None = Some (P5PubRel 2 0).
 Proof. exact low5_needs_connack_clause. Qed.
 
-(* the clause "receive-maximum >= 1" of op_ok5 is needed: after a CONNACK announcing 0 the allocator
-   never wraps (SUBSCRIBE id 3 under a configured limit of 2; every QoS>0 publish refused) *)
-Theorem c07_contract_needs_receive_max_ge_1_v5 :
-  let h := [Inc5 (P5ConnAck true 0 (Some 0) None); Out5 (R5Subscribe 1); Out5 (R5Subscribe 1); Out5 (R5Subscribe 1); pq5 Q1 1] in
-  Client.Inv5.contract5 (init5 2 false) h = false /\
-  trace5 (init5 2 false) h = [None; Some (P5Subscribe 1 1); Some (P5Subscribe 2 1); Some (P5Subscribe 3 1); None] /\
-  (exists s s', Client.Inv5.run5 (init5 2 false) (firstn 4 h) = Some s /\ s5_max s = 0 /\
-     step5 s (pq5 Q1 1) = Err (s', E5Unsolicited 4)).
-Proof. exact receive_max_zero_breaks_ids. Qed.
+(* F37 (fixed, commit b2fc5b9): before the fix a CONNACK announcing receive-maximum 0 was taken as a
+   limit of zero: the allocator never wrapped (SUBSCRIBE id 3 under a configured limit of 2, every
+   QoS>0 publish refused).  Orig = the code before the v5 fix: commits (Client/State5Orig.v). *)
+Theorem c07_receive_max_zero_refuted_before_fix_v5 :
+  (exists s s1 s2, Client.Findings5.run5_orig (init5 2 false) Client.Findings5.f37 = Some s /\ s5_max s = 0 /\
+     Client.State5Orig.Orig.step5 s (Out5 (R5Subscribe 1)) = Ok (s1, Wrote5 (Some (P5Subscribe 3 1))) /\
+     Client.State5Orig.Orig.step5 s1 (Client.Findings5.p5 Q1 1) = Err (s2, E5Unsolicited 4))
+  /\ (exists s s1 s2, Client.Findings5.run5 (init5 2 false) Client.Findings5.f37 = Some s /\ s5_max s = 2 /\
+     step5 s (Out5 (R5Subscribe 1)) = Ok (s1, Wrote5 (Some (P5Subscribe 1 1))) /\
+     step5 s1 (Client.Findings5.p5 Q1 1) = Ok (s2, Wrote5 (Some (P5Publish (mkPub5 Q1 2 1 1 None)))))
+  /\ (exists s', step5 (init5 2 false) (Inc5 (P5ConnAck true 0 (Some 0) None)) = Err (s', E5ConnFail 130) /\
+     s5_max s' = 2 /\ s5_last_pkid s' = 0).
+Proof. exact Client.Findings5.f37_refuted. Qed.
+
+(* now: refused from ANY state; the state is unchanged but for the Incoming notification and the
+   topic-alias maximum (read before the test); hence op_ok5 asks nothing of the broker *)
+Theorem c07_receive_max_zero_rejected_v5 : forall s sp tam,
+  step5 s (Inc5 (P5ConnAck sp 0 (Some 0) tam))
+  = Err (alias_taken5 (push5 s (Ev5In (P5ConnAck sp 0 (Some 0) tam))) tam, E5ConnFail 130).
+Proof. exact receive_max_zero_rejected5. Qed.
 
 (* v5 (g): the parked collision is resolved, in the same step, by the broker's final word on its id *)
 Theorem c07_collision_resolved_v5 : forall s q o s' rep, Client.Inv5.Inv5 s -> s5_collision s = Some q ->
